@@ -34,6 +34,26 @@ theorem beqShapeL_textL : ∀ ts us : List GTree, beqShapeL ts us = true → tex
   | _ :: _, [], h => by simp [beqShapeL] at h
 end
 
+mutual
+theorem beqTree_eq : ∀ t u : GTree, beqTree t u = true → t = u
+  | .leaf v r, .leaf w r', h => by
+    simp only [beqTree, Bool.and_eq_true, beq_iff_eq] at h
+    rw [h.1, h.2]
+  | .node s r ks ss, .node s' r' ks' ss', h => by
+    simp only [beqTree, Bool.and_eq_true, beq_iff_eq] at h
+    obtain ⟨⟨⟨h1, h2⟩, h3⟩, h4⟩ := h
+    rw [h1, h2, beqTreeL_eq ks ks' h3, beqTreeL_eq ss ss' h4]
+  | .leaf _ _, .node _ _ _ _, h => by simp [beqTree] at h
+  | .node _ _ _ _, .leaf _ _, h => by simp [beqTree] at h
+theorem beqTreeL_eq : ∀ ts us : List GTree, beqTreeL ts us = true → ts = us
+  | [], [], _ => rfl
+  | t :: ts, u :: us, h => by
+    simp only [beqTreeL, Bool.and_eq_true] at h
+    rw [beqTree_eq t u h.1, beqTreeL_eq ts us h.2]
+  | [], _ :: _, h => by simp [beqTreeL] at h
+  | _ :: _, [], h => by simp [beqTreeL] at h
+end
+
 theorem beqShape_sym? : ∀ t u : GTree, beqShape t u = true → t.sym? = u.sym?
   | .leaf _ _, .leaf _ _, _ => rfl
   | .node s _ _ _, .node s' _ _ _, h => by
@@ -281,5 +301,535 @@ theorem replace_mono (E : Env) (repl : Repl) : ∀ f : Nat,
             have a := ihG _ _ _ _ _ h1
             have b := ihL _ _ _ _ _ _ _ h2
             exact LogLe.trans a b
+
+
+/-! ### inside generated output (everything read-only) nothing happens -/
+
+theorem target_ro (repl : Repl) (path : List Nat) (t : GTree) (h : t.ro = true) : target repl path t = none := by
+  unfold target
+  split
+  · simp [h]
+  · rfl
+
+theorem allRO_ro {t : GTree} (h : allRO t = true) : t.ro = true := by
+  cases t with
+  | leaf v r => simpa [allRO, GTree.ro] using h
+  | node s r kids srcs =>
+    simp only [allRO, Bool.and_eq_true] at h
+    simpa [GTree.ro] using h.1.1
+
+theorem replace_ro (E : Env) (repl : Repl) : ∀ f : Nat,
+    (∀ ctx path t log o, allRO t = true → replaceG E repl f ctx path t log = .ok o →
+      o.log = log ∧ o.inst = [] ∧ allRO o.tree = true ∧ beqShape o.tree t = true) ∧
+    (∀ ctx path par i ts log o, allROL ts = true → replaceL E repl f ctx path par i ts log = .ok o →
+      o.log = log ∧ o.inst = [] ∧ allROL o.trees = true ∧ beqShapeL o.trees ts = true)
+  | 0 => by
+    constructor <;> intros <;> rename_i h
+    · simp [replaceG] at h
+    · simp [replaceL] at h
+  | f + 1 => by
+    obtain ⟨ihG, ihL⟩ := replace_ro E repl f
+    constructor
+    · intro ctx path t log o hro h
+      simp only [replaceG, target_ro repl path t (allRO_ro hro)] at h
+      cases t with
+      | leaf v r =>
+        simp only [Except.ok.injEq] at h; subst h
+        exact ⟨rfl, rfl, hro, beqShape_refl _⟩
+      | node s r kids srcs =>
+        simp only [allRO, Bool.and_eq_true] at hro
+        obtain ⟨⟨hr, hk⟩, hs⟩ := hro
+        simp only at h
+        split at h
+        · simp at h
+        · rename_i os hos
+          obtain ⟨sl, si, sr, sb⟩ := ihL _ _ _ _ _ _ _ hs hos
+          split at h
+          · simp at h
+          · rename_i ok hok
+            rw [sl] at hok
+            obtain ⟨kl, ki, kr, kb⟩ := ihL _ _ _ _ _ _ _ hk hok
+            simp only [sb, kb, Bool.not_true, Bool.false_eq_true, if_false] at h
+            split at h
+            · simp only [Except.ok.injEq] at h; subst h
+              refine ⟨kl, ki, ?_, ?_⟩
+              · simp [allRO, hr, kr, allROL]
+              · simp [beqShape, kb]
+            · simp only [Except.ok.injEq] at h; subst h
+              refine ⟨kl, by simp [si, ki], ?_, ?_⟩
+              · simp [allRO, hr, kr, sr]
+              · simp [beqShape, kb]
+    · intro ctx path par i ts log o hro h
+      cases ts with
+      | nil =>
+        simp only [replaceL, Except.ok.injEq] at h; subst h
+        exact ⟨rfl, rfl, rfl, rfl⟩
+      | cons t ts =>
+        simp only [allROL, Bool.and_eq_true] at hro
+        simp only [replaceL] at h
+        split at h
+        · simp at h
+        · rename_i o1 h1
+          obtain ⟨l1, i1, r1, b1⟩ := ihG _ _ _ _ _ hro.1 h1
+          split at h
+          · simp at h
+          · rename_i os h2
+            rw [l1] at h2
+            obtain ⟨l2, i2, r2, b2⟩ := ihL _ _ _ _ _ _ _ hro.2 h2
+            simp only [Except.ok.injEq] at h; subst h
+            exact ⟨l2, by simp [i1, i2], by simp [allROL, r1, r2], by simp [beqShapeL, b1, b2]⟩
+
+
+/-! ### the whole function keeps the invariant -/
+
+def InstInv (S : Spec) (L : Log) (inst : List Install) : Prop := ∀ i ∈ inst, GenInv S L i.1 i.2
+def InstSrc (S : Spec) (inst : List Install) : Prop := ∀ i ∈ inst, srcOKB S i.1 i.2 = true
+
+theorem InstInv.left {S : Spec} {L : Log} {a b : List Install} (h : InstInv S L (a ++ b)) : InstInv S L a :=
+  fun i hi => h i (List.mem_append_left _ hi)
+theorem InstInv.right {S : Spec} {L : Log} {a b : List Install} (h : InstInv S L (a ++ b)) : InstInv S L b :=
+  fun i hi => h i (List.mem_append_right _ hi)
+theorem InstSrc.left {S : Spec} {a b : List Install} (h : InstSrc S (a ++ b)) : InstSrc S a :=
+  fun i hi => h i (List.mem_append_left _ hi)
+theorem InstSrc.right {S : Spec} {a b : List Install} (h : InstSrc S (a ++ b)) : InstSrc S b :=
+  fun i hi => h i (List.mem_append_right _ hi)
+
+theorem replaceL_nil {E : Env} {repl : Repl} {f : Nat} {ctx : List Frame} {path : List Nat} {par i : Nat}
+    {log : Log} {o : OutL} (h : replaceL E repl f ctx path par i [] log = .ok o) :
+    o.trees = [] ∧ o.log = log ∧ o.inst = [] := by
+  cases f with
+  | zero => simp [replaceL] at h
+  | succ f => simp only [replaceL, Except.ok.injEq] at h; subst h; exact ⟨rfl, rfl, rfl⟩
+
+theorem deriveSources_unused {E : Env} {f : Nat} {path : List String} {s : String} {r : Bool}
+    {kids srcs : List GTree} {log : Log} {x : List GTree × Log} {ps : List String}
+    (hps : E.S.params s = some ps) (hu : E.S.useGen (path ++ [s]) s = none)
+    (h : deriveSources E f path (.node s r kids srcs) log = .ok x) : x = ([], log) := by
+  cases f with
+  | zero => simp [deriveSources] at h
+  | succ f =>
+    simp only [deriveSources, hps, hu, Except.ok.injEq] at h
+    exact h.symm
+
+theorem replace_inv (E : Env) (repl : Repl) (hp : ParseFits E.parse) : ∀ f : Nat,
+    (∀ ctx path t log o, Searched E.S t ctx → GenInv E.S log (ctxSyms ctx) t →
+      srcOKB E.S (ctxSyms ctx) t = true → replaceG E repl f ctx path t log = .ok o →
+      (∀ L, LogLe o.log L → InstInv E.S L o.inst → GenInv E.S L (ctxSyms ctx) o.tree) ∧
+      (InstSrc E.S o.inst → srcOKB E.S (ctxSyms ctx) o.tree = true)) ∧
+    (∀ ctx path par i ts log o, (∀ t ∈ ts, Searched E.S t ctx) → GenInvL E.S log (ctxSyms ctx) ts →
+      srcOKLB E.S (ctxSyms ctx) ts = true → replaceL E repl f ctx path par i ts log = .ok o →
+      (∀ L, LogLe o.log L → InstInv E.S L o.inst → GenInvL E.S L (ctxSyms ctx) o.trees) ∧
+      (InstSrc E.S o.inst → srcOKLB E.S (ctxSyms ctx) o.trees = true))
+  | 0 => by
+    constructor <;> intros <;> rename_i h
+    · simp [replaceG] at h
+    · simp [replaceL] at h
+  | f + 1 => by
+    obtain ⟨ihG, ihL⟩ := replace_inv E repl hp f
+    constructor
+    · intro ctx path t log o hsea hinv hsrc h
+      simp only [replaceG] at h
+      split at h
+      · -- a terminal is installed
+        simp only [Except.ok.injEq] at h; subst h
+        exact ⟨fun L _ hi => hi (ctxSyms ctx, _) (by simp), fun hi => hi (ctxSyms ctx, _) (by simp)⟩
+      · -- a copy of the replacement is installed
+        split at h
+        · simp at h
+        · split at h
+          · simp at h
+          · simp only [Except.ok.injEq] at h; subst h
+            exact ⟨fun L _ hi => hi (ctxSyms ctx, _) (by simp), fun hi => hi (ctxSyms ctx, _) (by simp)⟩
+      · -- no replacement here
+        cases t with
+        | leaf v r =>
+          simp only [Except.ok.injEq] at h; subst h
+          exact ⟨fun _ _ _ => trivial, fun _ => rfl⟩
+        | node s r kids srcs =>
+          simp only at h
+          have hc : ctxSyms ((⟨s, r, kids, srcs⟩ : Frame) :: ctx) = ctxSyms ctx ++ [s] := ctxSyms_cons _ _
+          split at h
+          · simp at h
+          · rename_i os hos
+            have mS := (replace_mono E repl f).2 _ _ _ _ _ _ _ hos
+            split at h
+            · simp at h
+            · rename_i ok hok
+              have mK := (replace_mono E repl f).2 _ _ _ _ _ _ _ hok
+              cases huse : E.S.useGen (ctxSyms ctx ++ [s]) s with
+              | some ps =>
+                simp only [GenInv, huse] at hinv
+                obtain ⟨⟨⟨args, ha, hm⟩, hro⟩, hsI⟩ := hinv
+                simp only [srcOKB, huse] at hsrc
+                have hps := useGen_params huse
+                obtain ⟨sI, sS⟩ := ihL (⟨s, r, kids, srcs⟩ :: ctx) path 1 0 srcs log os
+                  (fun t' ht' => ⟨Or.inl ht', hsea⟩) (by rw [hc]; exact hsI) (by rw [hc]; exact hsrc) hos
+                rw [hc] at sI sS
+                obtain ⟨kl, ki, kr, kb⟩ := (replace_ro E repl f).2 _ _ _ _ _ _ _ hro hok
+                simp only [hps, Option.isNone_some, Bool.false_eq_true, if_false] at h
+                cases hb : beqShapeL os.trees srcs with
+                | true =>
+                  simp only [hb, kb, Bool.not_true, Bool.false_eq_true, if_false, Except.ok.injEq] at h
+                  subst h
+                  constructor
+                  · intro L hL hi
+                    simp only [GenInv, huse]
+                    refine ⟨⟨⟨args, ?_, ?_⟩, kr⟩, sI L ?_ hi.left⟩
+                    · rw [argsOf_congr _ _ hb]; exact ha
+                    · rw [beqShapeL_textL _ _ kb]
+                      exact hL _ (mK _ (mS _ hm))
+                    · rw [kl] at hL; exact hL
+                  · intro hi
+                    simp only [srcOKB, huse]
+                    exact sS hi.left
+                | false =>
+                  simp only [hb, Bool.not_false, if_true, isGenChild_false E.S ctx _ hsea, Bool.false_eq_true,
+                    if_false] at h
+                  split at h
+                  · simp at h
+                  · rename_i gk log3 hg
+                    simp only [Except.ok.injEq] at h; subst h
+                    obtain ⟨ps', args', v, hps', ha', hpk, rfl⟩ := genKids_ok hg
+                    have hpseq : ps' = ps := by rw [hps] at hps'; exact (Option.some.inj hps').symm
+                    subst hpseq
+                    constructor
+                    · intro L hL hi
+                      simp only [GenInv, huse]
+                      refine ⟨⟨⟨args', ha', ?_⟩, allROL_setROL gk⟩, sI L ?_ hi⟩
+                      · rw [textL_setROL, hp s v gk hpk]
+                        exact hL _ List.mem_cons_self
+                      · intro e he
+                        exact hL _ (List.mem_cons_of_mem _ (by rw [kl]; exact he))
+                    · intro hi
+                      simp only [srcOKB, huse]
+                      exact sS hi
+              | none =>
+                simp only [GenInv, huse] at hinv
+                obtain ⟨hkI, _⟩ := hinv
+                simp only [srcOKB, huse, Bool.and_eq_true, List.isEmpty_iff] at hsrc
+                obtain ⟨hse, hks⟩ := hsrc
+                subst hse
+                obtain ⟨st, sl, si⟩ := replaceL_nil hos
+                rw [sl] at hok
+                obtain ⟨kI, kS⟩ := ihL (⟨s, r, kids, []⟩ :: ctx) path 0 0 kids log ok
+                  (fun t' _ => ⟨Or.inr huse, hsea⟩) (by rw [hc]; exact hkI) (by rw [hc]; exact hks) hok
+                rw [hc] at kI kS
+                have hfin : ∀ L, LogLe ok.log L → InstInv E.S L ok.inst →
+                    GenInv E.S L (ctxSyms ctx) (.node s r ok.trees []) := by
+                  intro L hL hi
+                  simp only [GenInv, huse]
+                  exact ⟨kI L hL hi, trivial⟩
+                have hfinS : InstSrc E.S ok.inst → srcOKB E.S (ctxSyms ctx) (.node s r ok.trees []) = true := by
+                  intro hi
+                  simp only [srcOKB, huse, List.isEmpty_nil, Bool.true_and]
+                  exact kS hi
+                simp only [st, si, beqShapeL, Bool.not_true, Bool.false_eq_true, if_false, List.nil_append] at h
+                split at h
+                · simp only [Except.ok.injEq] at h; subst h
+                  exact ⟨hfin, hfinS⟩
+                · rename_i hpn
+                  split at h
+                  · split at h
+                    · simp at h
+                    · rename_i srcs2 log3 hd
+                      cases hps : E.S.params s with
+                      | none => simp [hps] at hpn
+                      | some ps =>
+                        have := deriveSources_unused hps huse hd
+                        simp only [Prod.mk.injEq] at this
+                        obtain ⟨rfl, rfl⟩ := this
+                        simp only [Except.ok.injEq] at h; subst h
+                        exact ⟨hfin, hfinS⟩
+                  · simp only [Except.ok.injEq] at h; subst h
+                    exact ⟨hfin, hfinS⟩
+    · intro ctx path par i ts log o hsea hinv hsrc h
+      cases ts with
+      | nil =>
+        obtain ⟨st, _, _⟩ := replaceL_nil h
+        rw [st]
+        exact ⟨fun _ _ _ => trivial, fun _ => rfl⟩
+      | cons t ts =>
+        simp only [replaceL] at h
+        split at h
+        · simp at h
+        · rename_i o1 h1
+          split at h
+          · simp at h
+          · rename_i os h2
+            simp only [Except.ok.injEq] at h; subst h
+            have m1 := (replace_mono E repl f).1 _ _ _ _ _ h1
+            have m2 := (replace_mono E repl f).2 _ _ _ _ _ _ _ h2
+            simp only [srcOKLB, Bool.and_eq_true] at hsrc
+            obtain ⟨g1, s1⟩ := ihG ctx _ t log o1 (hsea t List.mem_cons_self) hinv.1 hsrc.1 h1
+            obtain ⟨g2, s2⟩ := ihL ctx path par (i + 1) ts o1.log os
+              (fun t' ht' => hsea t' (List.mem_cons_of_mem _ ht')) (genInvL_mono m1 _ _ hinv.2) hsrc.2 h2
+            constructor
+            · intro L hL hi
+              exact ⟨g1 L (LogLe.trans m2 hL) hi.left, g2 L hL hi.right⟩
+            · intro hi
+              simp only [srcOKLB, Bool.and_eq_true]
+              exact ⟨s1 hi.left, s2 hi.right⟩
+
+
+/-! ### generator-free replacements: `populate_sources` has nothing to adopt -/
+
+mutual
+theorem genFree_strip (S : Spec) : ∀ t : GTree, genFreeB S (strip t) = genFreeB S t
+  | .leaf _ _ => rfl
+  | .node _ _ kids _ => by simp [strip, genFreeB, genFreeL_strip S kids]
+theorem genFreeL_strip (S : Spec) : ∀ ts : List GTree, genFreeLB S (stripL ts) = genFreeLB S ts
+  | [] => rfl
+  | t :: ts => by simp [stripL, genFreeLB, genFree_strip S t, genFreeL_strip S ts]
+end
+
+theorem useGen_none_of_params {S : Spec} {path : List String} {s : String} (h : S.params s = none) :
+    S.useGen path s = none := by
+  unfold Spec.useGen
+  simp [h]
+
+theorem populate_genfree (E : Env) : ∀ f : Nat,
+    (∀ path t log x, genFreeB E.S t = true → populate E f path t log = .ok x → x = (t, log)) ∧
+    (∀ path ts log x, genFreeLB E.S ts = true → populateL E f path ts log = .ok x → x = (ts, log))
+  | 0 => by
+    constructor <;> intros <;> rename_i h
+    · simp [populate] at h
+    · simp [populateL] at h
+  | f + 1 => by
+    obtain ⟨ih1, ih2⟩ := populate_genfree E f
+    constructor
+    · intro path t log x hg h
+      cases t with
+      | leaf v r => simp only [populate, Except.ok.injEq] at h; exact h.symm
+      | node s r kids srcs =>
+        simp only [genFreeB, Bool.and_eq_true, Option.isNone_iff_eq_none] at hg
+        simp only [populate, useGen_none_of_params hg.1] at h
+        split at h
+        · simp at h
+        · rename_i kids' log' hk
+          have := ih2 _ _ _ _ hg.2 hk
+          simp only [Prod.mk.injEq] at this
+          obtain ⟨rfl, rfl⟩ := this
+          simp only [Except.ok.injEq] at h
+          exact h.symm
+    · intro path ts log x hg h
+      cases ts with
+      | nil => simp only [populateL, Except.ok.injEq] at h; exact h.symm
+      | cons t ts =>
+        simp only [genFreeLB, Bool.and_eq_true] at hg
+        simp only [populateL] at h
+        split at h
+        · simp at h
+        · rename_i t' log1 h1
+          have e1 := ih1 _ _ _ _ hg.1 h1
+          simp only [Prod.mk.injEq] at e1
+          obtain ⟨rfl, rfl⟩ := e1
+          split at h
+          · simp at h
+          · rename_i ts' log2 h2
+            have e2 := ih2 _ _ _ _ hg.2 h2
+            simp only [Prod.mk.injEq] at e2
+            obtain ⟨rfl, rfl⟩ := e2
+            simp only [Except.ok.injEq] at h
+            exact h.symm
+
+mutual
+theorem genFree_inv (S : Spec) (L : Log) : ∀ (path : List String) (t : GTree), genFreeB S t = true →
+    GenInv S L path (strip t) ∧ srcOKB S path (strip t) = true
+  | _, .leaf _ _, _ => ⟨trivial, rfl⟩
+  | path, .node s r kids srcs, h => by
+    simp only [genFreeB, Bool.and_eq_true, Option.isNone_iff_eq_none] at h
+    have hu := useGen_none_of_params (path := path ++ [s]) h.1
+    obtain ⟨a, b⟩ := genFreeL_inv S L (path ++ [s]) kids h.2
+    simp only [strip, GenInv, srcOKB, hu]
+    exact ⟨⟨a, trivial⟩, by simpa using b⟩
+theorem genFreeL_inv (S : Spec) (L : Log) : ∀ (path : List String) (ts : List GTree), genFreeLB S ts = true →
+    GenInvL S L path (stripL ts) ∧ srcOKLB S path (stripL ts) = true
+  | _, [], _ => ⟨trivial, rfl⟩
+  | path, t :: ts, h => by
+    simp only [genFreeLB, Bool.and_eq_true] at h
+    obtain ⟨a, b⟩ := genFree_inv S L path t h.1
+    obtain ⟨c, d⟩ := genFreeL_inv S L path ts h.2
+    simp only [stripL, GenInvL, srcOKLB, Bool.and_eq_true]
+    exact ⟨⟨a, c⟩, b, d⟩
+end
+
+theorem lookupRepl_mem {p : List Nat} : ∀ {repl : Repl} {r : GTree}, lookupRepl p repl = some r →
+    ∃ q, (q, r) ∈ repl
+  | [], _, h => by simp [lookupRepl] at h
+  | (q, r') :: rest, r, h => by
+    simp only [lookupRepl] at h
+    split at h
+    · rename_i x hx
+      simp only [Option.some.injEq] at h; subst h
+      obtain ⟨q', hq⟩ := lookupRepl_mem hx
+      exact ⟨q', List.mem_cons_of_mem _ hq⟩
+    · split at h
+      · simp only [Option.some.injEq] at h; subst h
+        exact ⟨q, List.mem_cons_self⟩
+      · simp at h
+
+theorem target_mem {repl : Repl} {path : List Nat} {t r : GTree} (h : target repl path t = some r) :
+    ∃ q, (q, r) ∈ repl := by
+  unfold target at h
+  split at h
+  · rename_i r' hr
+    split at h
+    · simp only [Option.some.injEq] at h; subst h
+      exact lookupRepl_mem hr
+    · simp at h
+  · simp at h
+
+def ReplFree (S : Spec) (repl : Repl) : Prop := ∀ q r, (q, r) ∈ repl → genFreeB S r = true
+
+/-- on generator-free material with generator-free replacements the result is generator-free -/
+theorem replace_genfree (E : Env) (repl : Repl) (hr : ReplFree E.S repl) : ∀ f : Nat,
+    (∀ ctx path t log o, genFreeB E.S t = true → replaceG E repl f ctx path t log = .ok o →
+      genFreeB E.S o.tree = true) ∧
+    (∀ ctx path par i ts log o, genFreeLB E.S ts = true → replaceL E repl f ctx path par i ts log = .ok o →
+      genFreeLB E.S o.trees = true)
+  | 0 => by
+    constructor <;> intros <;> rename_i h
+    · simp [replaceG] at h
+    · simp [replaceL] at h
+  | f + 1 => by
+    obtain ⟨ihG, ihL⟩ := replace_genfree E repl hr f
+    constructor
+    · intro ctx path t log o hg h
+      simp only [replaceG] at h
+      split at h
+      · simp only [Except.ok.injEq] at h; subst h; rfl
+      · rename_i s rr ks _ htar
+        obtain ⟨q, hq⟩ := target_mem htar
+        have hrf := hr _ _ hq
+        simp only [genFreeB, Bool.and_eq_true] at hrf
+        split at h
+        · simp at h
+        · rename_i o1 h1
+          have g1 := ihL _ _ _ _ _ _ _ hrf.2 h1
+          split at h
+          · simp at h
+          · rename_i u log2 h2
+            simp only [Except.ok.injEq] at h; subst h
+            have gn : genFreeB E.S (strip (.node s rr o1.trees [])) = true := by
+              rw [genFree_strip]; simp [genFreeB, hrf.1, g1]
+            have := (populate_genfree E f).1 _ _ _ _ gn h2
+            simp only [Prod.mk.injEq] at this
+            rw [this.1]; exact gn
+      · cases t with
+        | leaf v r => simp only [Except.ok.injEq] at h; subst h; rfl
+        | node s r kids srcs =>
+          simp only [genFreeB, Bool.and_eq_true] at hg
+          simp only at h
+          split at h
+          · simp at h
+          · split at h
+            · simp at h
+            · rename_i ok hok
+              have gk := ihL _ _ _ _ _ _ _ hg.2 hok
+              simp only [hg.1, if_true, Except.ok.injEq] at h
+              subst h
+              simp [genFreeB, hg.1, gk]
+    · intro ctx path par i ts log o hg h
+      cases ts with
+      | nil => simp only [replaceL, Except.ok.injEq] at h; subst h; rfl
+      | cons t ts =>
+        simp only [genFreeLB, Bool.and_eq_true] at hg
+        simp only [replaceL] at h
+        split at h
+        · simp at h
+        · rename_i o1 h1
+          split at h
+          · simp at h
+          · rename_i os h2
+            simp only [Except.ok.injEq] at h; subst h
+            simp [genFreeLB, ihG _ _ _ _ _ hg.1 h1, ihL _ _ _ _ _ _ _ hg.2 h2]
+
+def InstFree (S : Spec) (inst : List Install) : Prop := ∀ i ∈ inst, ∃ x, genFreeB S x = true ∧ i.2 = strip x
+
+theorem InstFree.append {S : Spec} {a b : List Install} (ha : InstFree S a) (hb : InstFree S b) :
+    InstFree S (a ++ b) := by
+  intro i hi
+  rcases List.mem_append.1 hi with h | h
+  · exact ha i h
+  · exact hb i h
+
+theorem InstFree.nil (S : Spec) : InstFree S [] := by intro i hi; simp at hi
+
+/-- with generator-free replacements every installed copy is a stripped generator-free tree -/
+theorem replace_inst_free (E : Env) (repl : Repl) (hr : ReplFree E.S repl) : ∀ f : Nat,
+    (∀ ctx path t log o, replaceG E repl f ctx path t log = .ok o → InstFree E.S o.inst) ∧
+    (∀ ctx path par i ts log o, replaceL E repl f ctx path par i ts log = .ok o → InstFree E.S o.inst)
+  | 0 => by
+    constructor <;> intros <;> rename_i h
+    · simp [replaceG] at h
+    · simp [replaceL] at h
+  | f + 1 => by
+    obtain ⟨ihG, ihL⟩ := replace_inst_free E repl hr f
+    constructor
+    · intro ctx path t log o h
+      simp only [replaceG] at h
+      split at h
+      · rename_i v rr htar
+        simp only [Except.ok.injEq] at h; subst h
+        intro i hi
+        simp only [List.mem_singleton] at hi; subst hi
+        exact ⟨.leaf v rr, rfl, rfl⟩
+      · rename_i s rr ks _ htar
+        obtain ⟨q, hq⟩ := target_mem htar
+        have hrf := hr _ _ hq
+        simp only [genFreeB, Bool.and_eq_true] at hrf
+        split at h
+        · simp at h
+        · rename_i o1 h1
+          have g1 := (replace_genfree E repl hr f).2 _ _ _ _ _ _ _ hrf.2 h1
+          split at h
+          · simp at h
+          · rename_i u log2 h2
+            simp only [Except.ok.injEq] at h; subst h
+            have gn : genFreeB E.S (.node s rr o1.trees []) = true := by simp [genFreeB, hrf.1, g1]
+            have gs : genFreeB E.S (strip (.node s rr o1.trees [])) = true := by rw [genFree_strip]; exact gn
+            have := (populate_genfree E f).1 _ _ _ _ gs h2
+            simp only [Prod.mk.injEq] at this
+            intro i hi
+            simp only [List.mem_singleton] at hi; subst hi
+            exact ⟨_, gn, this.1⟩
+      · cases t with
+        | leaf v r => simp only [Except.ok.injEq] at h; subst h; exact InstFree.nil _
+        | node s r kids srcs =>
+          simp only at h
+          split at h
+          · simp at h
+          · rename_i os hos
+            have fs := ihL _ _ _ _ _ _ _ hos
+            split at h
+            · simp at h
+            · rename_i ok hok
+              have fk := ihL _ _ _ _ _ _ _ hok
+              split at h
+              · simp only [Except.ok.injEq] at h; subst h; exact fk
+              · split at h
+                · split at h
+                  · simp only [Except.ok.injEq] at h; subst h; exact fk
+                  · split at h
+                    · simp at h
+                    · simp only [Except.ok.injEq] at h; subst h; exact fs
+                · split at h
+                  · split at h
+                    · simp at h
+                    · simp only [Except.ok.injEq] at h; subst h; exact fk
+                  · simp only [Except.ok.injEq] at h; subst h; exact fs.append fk
+    · intro ctx path par i ts log o h
+      cases ts with
+      | nil => simp only [replaceL, Except.ok.injEq] at h; subst h; exact InstFree.nil _
+      | cons t ts =>
+        simp only [replaceL] at h
+        split at h
+        · simp at h
+        · rename_i o1 h1
+          split at h
+          · simp at h
+          · rename_i os h2
+            simp only [Except.ok.injEq] at h; subst h
+            exact (ihG _ _ _ _ _ h1).append (ihL _ _ _ _ _ _ _ h2)
 
 end FV.Gen
